@@ -279,12 +279,119 @@ def mk(tok):
         return {"type": "Doctype", "name": v, "publicId": None, "systemId": None}
 
 
+def window_allowed(prev, cur, nxt):
+    """R-omit on a three-token window.  In a well-formed stream the token after an end tag, when it is itself an end
+    tag, closes the parent, so 'no more content in the parent' and the parent's name are both visible in the window.
+    -> True / False / None (not decidable from the window: needs 'preceding end tag was omitted')."""
+    kind, name = cur
+    nk = ("eof",) if nxt is None else (("el", nxt[1], True) if nxt[0] in ("S", "Sa", "V") else ("text", True) if nxt[0] == "W" else
+                                        ("text", False) if nxt[0] == "T" else ("comment",) if nxt[0] == "C" else
+                                        ("end", nxt[1]) if nxt[0] == "E" else ("other",))
+    if name not in OMISSIBLE or kind == "Sa":
+        return False
+    if nk[0] == "other":
+        return None
+    if kind == "S":
+        empty = nk[0] == "end" and nk[1] == name
+        if name == "html":
+            return nk[0] != "comment"
+        if name == "head":
+            return empty or nk[0] == "el"
+        if name == "body":
+            if empty or nk[0] in ("eof",):
+                return True
+            if nk[0] == "comment" or (nk[0] == "text" and nk[1]):
+                return False
+            return not (nk[0] == "el" and nk[1] in ("meta", "link", "script", "style", "template"))
+        if name == "colgroup":
+            if empty or not (nk[0] == "el" and nk[1] == "col"):
+                return False
+            return None if (prev is not None and prev[0] == "E" and prev[1] == "colgroup") else True
+        if name == "tbody":
+            if empty or not (nk[0] == "el" and nk[1] == "tr"):
+                return False
+            return None if (prev is not None and prev[0] == "E" and prev[1] in ("tbody", "thead", "tfoot")) else True
+        return False
+    no_more = nk[0] in ("end", "eof")
+
+    def fb(names):
+        return nk[0] == "el" and nk[1] in names
+    if name in ("html", "body"):
+        return nk[0] != "comment"
+    if name == "head":
+        return not (nk[0] == "comment" or (nk[0] == "text" and nk[1]))
+    if name == "li":
+        return fb(("li",)) or no_more
+    if name == "dt":
+        return fb(("dt", "dd"))
+    if name == "dd":
+        return fb(("dt", "dd")) or no_more
+    if name == "p":
+        if fb(P_FOLLOW):
+            return True
+        if nk[0] == "eof":
+            return True
+        if nk[0] == "end":
+            return nk[1] not in P_PARENT_EXCLUDED and "-" not in nk[1]
+        return False
+    if name in ("rt", "rp"):
+        return fb(("rt", "rp")) or no_more
+    if name == "optgroup":
+        return fb(("optgroup",)) or no_more
+    if name == "option":
+        return fb(("option", "optgroup")) or no_more
+    if name == "colgroup":
+        return not (nk[0] == "comment" or (nk[0] == "text" and nk[1]))
+    if name == "thead":
+        return fb(("tbody", "tfoot"))
+    if name == "tbody":
+        return fb(("tbody", "tfoot")) or no_more
+    if name == "tfoot":
+        return no_more
+    if name == "tr":
+        return fb(("tr",)) or no_more
+    if name in ("td", "th"):
+        return fb(("td", "th")) or no_more
+    return False
+
+
+def window_deviation(prev, cur, nxt):
+    kind, name = cur
+    if kind == "E" and name == "p" and nxt is not None and nxt[0] == "E" and (nxt[1] in P_PARENT_EXCLUDED or "-" in nxt[1]):
+        return "p-end-parent-not-checked"
+    if kind == "E" and name == "p" and nxt is not None and nxt[0] in ("S", "Sa", "V") and nxt[1] in ("datagrid", "dialog", "dir"):
+        return "p-end-before-obsolete-follower"
+    if kind == "S" and name == "body" and nxt is not None and nxt[0] in ("S", "Sa", "V") and nxt[1] in ("meta", "link", "template"):
+        return "body-start-before-meta-link"
+    if kind == "E" and name == "tfoot" and nxt is not None and nxt[0] in ("S", "Sa") and nxt[1] == "tbody":
+        return "tfoot-end-before-tbody"
+    return None
+
+
 def judge_window(ctx, prev, cur, nxt):
+    from html5lib.filters import optionaltags
     toks = [mk(x) for x in (prev, cur, nxt) if x is not None]
     case = {"window": [prev, cur, nxt]}
     ctx.case(["w", prev, cur, nxt], nontrivial=cur[0] in ("S", "E", "Sa"))
     ctx.count("windows")
-    judge_stream(ctx, case, toks, "window", contextual=False)
+    r = judge_stream(ctx, case, toks, "window", contextual=False)
+    if r is None:
+        return
+    removed, _ = r
+    ci = 1 if prev is not None else 0
+    if ci in removed:
+        ok = window_allowed(prev, cur, nxt)
+        if ok is None:
+            ctx.count("windows_not_decidable")
+        elif ok:
+            ctx.count("window_removals_allowed_by_R_omit")
+        else:
+            key = window_deviation(prev, cur, nxt)
+            if key:
+                ctx.known_finding(key, case, "window %r: %s removed where the syntax does not allow it" % ([prev, cur, nxt], cur))
+            else:
+                ctx.violation("omitted-where-not-allowed:window:%s-%s" % ("start" if cur[0] != "E" else "end", cur[1]), case,
+                              "window %r: the tag is removed but the omission rules do not allow it here" % ([prev, cur, nxt],))
 
 
 def serialize(tokens):
@@ -370,7 +477,10 @@ def run_case(ctx, case):
             ctx.case(["s", data, kind, case.get("container")], nontrivial=bool(r[0]))
 
 
-SEEDS = ["<m>x</m><h>y</h><t>z</t><l>w</l><ht>a</ht><tm>b</tm><ml>c</ml><htm>d</htm><tml>e</tml>",
+SEEDS = ["<head></head> <body><script>x</script>y", "<head></head><!--c--><body><style>x</style>y", "<head></head>\n<body><script></script>",
+         "<head></head><body><script>x</script>", "<head></head> <body><p>x", "<select><optgroup label=a><option>1</option></optgroup><option>2</option></select>",
+         "<ruby>a<rt>b</rt>c<rp>d</rp>e</ruby>", "<dl><dt>a</dt>x<dd>b</dd>y</dl>", "<table><thead><tr><td>a</thead>x<tbody><tr><td>b</table>",
+         "<m>x</m><h>y</h><t>z</t><l>w</l><ht>a</ht><tm>b</tm><ml>c</ml><htm>d</htm><tml>e</tml>",
          "<a><p>x</p></a>", "<body><link><meta>", "<body><template>x</template>", "<p>x</p><dialog>y</dialog>",
          "<p>x</p><dir>y</dir>", "<table><tfoot><tr><td>x</tfoot><tbody><tr><td>y</table>", "<svg><td>x</td></svg>",
          "<math><p>x</p>", "<svg><foreignObject><p>x</p></foreignObject></svg>", "<x-y><p>x</p></x-y>",
